@@ -2,9 +2,12 @@
 from props import compile_common as cc
 
 LEVEL = 'proof'
-MODULES = ['Pysmi.Props.C10', 'Pysmi.Props.C10Searcher', 'Pysmi.Pins.Compile', 'Pysmi.Pins.SkelC10']
-LAKE_TARGETS = ['Pysmi.Props.C10', 'Pysmi.Props.C10Searcher', 'Pysmi.Pins.Compile', 'Pysmi.Pins.SkelC10']
+MODULES = ['Pysmi.Props.C10', 'Pysmi.Props.C10Searcher', 'Pysmi.Pins.Compile', 'Pysmi.Pins.SkelC10', 'Pysmi.Props.C10Run']
+LAKE_TARGETS = ['Pysmi.Props.C10', 'Pysmi.Props.C10Searcher', 'Pysmi.Pins.Compile', 'Pysmi.Pins.SkelC10', 'Pysmi.Props.C10Run']
 THEOREMS = [
+    'Pysmi.Compile.C10_fresh_untouched',
+    'Pysmi.Compile.settled_phaseNeed',
+    'Pysmi.Compile.di_discover',
     'Pysmi.Pins.SkelC10.pin_anyFileSearcher',
     'Pysmi.Pins.SkelC10.pin_pyFileSearcher',
     'Pysmi.Pins.SkelC10.pin_stubSearcher',
@@ -22,7 +25,7 @@ THEOREMS = [
     'Pysmi.Searcher.C10_stale_pyc_decides',
 ]
 TECHNIQUE = 'Lean 4 theorems about a model of MibCompiler.compile over abstract component oracles; differential correspondence (status map + full call trace) against the real compile() driven by scripted doubles; oracle search'
-LEVEL_TEXT = ("Compile level, proved in Lean for every searcher list and answer assignment: searchers asked in order up to and including the first fresh answer (every other answer moves on); a parsed module is untouched and removed from generation iff some searcher says fresh or noDeps excludes it; the generator is called exactly once per remaining module. The file searchers' own decision is modelled (Model/Searcher.lean) and proved exact for every directory content, extension list, mtime and rebuild setting (AnyFileSearcher fully; PyFileSearcher: by the source suffixes when no byte-code file with a usable header sits beside the module, otherwise by the timestamp inside the first such file - C10_pyfile_pyc; the flags-word defect F18 is repaired); stub lists are not overridden by rebuild. Tied to the real searchers on scratch directories (all mtime orderings around equality, same-named directories, other extensions, bad / good / hash-based / cut-off .pyc headers, one searcher instance reused while the directory changes).")
+LEVEL_TEXT = ("Compile level, proved in Lean for every searcher list and answer assignment: searchers asked in order up to and including the first fresh answer (every other answer moves on); a parsed module is untouched and removed from generation iff some searcher says fresh or noDeps excludes it; the generator is called exactly once per remaining module. Run level (C10_fresh_untouched): a parsed module with no failure recorded against its name that some searcher reports up to date ends untouched and is never handed to the writer, whatever every other module, answer and option. The file searchers' own decision is modelled (Model/Searcher.lean) and proved exact for every directory content, extension list, mtime and rebuild setting (AnyFileSearcher fully; PyFileSearcher: by the source suffixes when no byte-code file with a usable header sits beside the module, otherwise by the timestamp inside the first such file - C10_pyfile_pyc; the flags-word defect F18 is repaired); stub lists are not overridden by rebuild. Tied to the real searchers on scratch directories (all mtime orderings around equality, same-named directories, other extensions, bad / good / hash-based / cut-off .pyc headers, one searcher instance reused while the directory changes).")
 LEVEL_NOTE = ('Trusted: Lean kernel + standard axioms; the hand-written model of compile() (Model/Compile.lean), tied to '
               '/repo by the correspondence on every run; component doubles stand for readers/parser/generators/searchers/'
               'borrowers/writer (their real behaviour is the subject of other properties).')
